@@ -296,8 +296,7 @@ residual and combines: any `unbounded` residual → `unbounded`; otherwise the b
 * DELEGATED: each continuous residual problem, to `sub`, under the contract `Ref.SubOK` (an answered verdict is right for
   the residual; `unknown` promises nothing).  The contract is an explicit hypothesis per residual; rooc's own exact simplex
   on the compiled residual meets it (`c03_slow_simplex_end_to_end_src_partial` below), and for a model WITHOUT continuous
-  declarations the residuals have no variables left and `refSolve` itself is the instance (`refSolve` never answers
-  `continuous` then).
+  declarations plain evaluation meets it (`subConst_meets_contract`).
 No `Closed` hypothesis is needed here (substitution handles every name); declared names pairwise distinct is
 (`IndexMap` keys). -/
 
@@ -394,6 +393,26 @@ theorem refSolveMixed_feasible_not_infeasible {sub : Model (Ext K) → SubVerdic
   intro h
   have := refSolveMixed_infeasible_sound hnd hsub h ρ
   rw [hf] at this; cases this
+
+/-- the delegation contract is MET by plain evaluation when nothing continuous is left: for a closed model whose used
+declarations are all enumerable, `Ref.subConst` (evaluate the variable-free residual once) satisfies `SubOK` on every residual
+— so `SubOK` is satisfiable for every discrete model and the mixed reference specialises to an exact decision procedure. -/
+theorem subConst_meets_contract {m : Model (Ext K)} {asg : List (List (String × K))}
+    (hasg : assignments m.domain = some asg) (hc : Closed m = true) (hnd : (m.domain.map (·.name)).Nodup) :
+    ∀ a ∈ discreteAssignments m.domain, SubOK (residual a m) (subConst (residual a m)) :=
+  fun _ ha => subConst_ok hasg hc hnd ha
+
+/-- on a discrete model the mixed reference with `subConst` and the enumerating reference agree on `infeasible`, and an
+`optimal v w` of the mixed reference is an optimum of the model in the sense of `refSolve_optimal_spec`. -/
+theorem refSolveMixed_discrete {m : Model (Ext K)} {asg : List (List (String × K))}
+    (hasg : assignments m.domain = some asg) (hc : Closed m = true) (hnd : (m.domain.map (·.name)).Nodup) :
+    (refSolveMixed subConst m = .infeasible → refSolve m = .infeasible) ∧
+    (∀ v w, refSolveMixed subConst m = .optimal v w →
+      srcFeasible m (lookup w) = true ∧ eval (lookup w) m.objective = some v ∧
+      ∀ ρ : String → K, srcFeasible m ρ = true → ∀ v', eval ρ m.objective = some v' → better m.optType v' v = false) :=
+  ⟨fun h => (refSolve_infeasible_iff hasg hc).2
+      (refSolveMixed_infeasible_sound hnd (subConst_meets_contract hasg hc hnd) h),
+   fun _ _ h => refSolveMixed_optimal_spec hnd (subConst_meets_contract hasg hc hnd) h⟩
 
 /-! ### Non-vacuity: concrete models at `K = ℚ`
 
